@@ -678,7 +678,7 @@ class Engine:
             if isinstance(op, ast.LShift):
                 if not is_false(y < 0):
                     raises.append((y < 0, 'ValueError'))
-                return VInt(x * T.pow2(y)), raises
+                return VInt(T.mulf(x, T.pow2(y))), raises
             if isinstance(op, ast.RShift):
                 if not is_false(y < 0):
                     raises.append((y < 0, 'ValueError'))
@@ -857,6 +857,10 @@ class Engine:
                     x, d = t.children()
                     if not any(x.eq(a) and d.eq(b) for a, b in out):
                         out.append((x, d))
+                if t.decl().name() == 'mulf':
+                    q, d = t.children()
+                    if not any(q.eq(a) and d.eq(b) for a, b in self._mulf_terms):
+                        self._mulf_terms.append((q, d))
                 todo.extend(t.children())
             elif z3.is_quantifier(t):
                 todo.append(t.body())
@@ -866,6 +870,7 @@ class Engine:
         """Ground defining instances and quotient hints for the symbolic-divisor // and % terms
         occurring in exprs (terms under a binder get the quantified definition instead)."""
         hyps, need_axiom, ground = [], False, []
+        self._mulf_terms = []
         for x, d in self.mod_terms_in(exprs):
             if self.has_var(x) or self.has_var(d):
                 need_axiom = True
@@ -879,6 +884,17 @@ class Engine:
                 d, d2 = ground[i][1], ground[j][1]
                 h = T.quotient_hint(T.qf(ground[i][0], d), T.qf(ground[j][0], d2), d)
                 hyps.append(h if d.eq(d2) else z3.Implies(d == d2, h))
+        # products written by the code (x << s) take part in the quotient reasoning as well
+        quots = [(T.qf(x, d), d) for x, d in ground]
+        extra = [(q, d) for q, d in self._mulf_terms
+                 if not self.has_var(q) and not self.has_var(d) and not any(q.eq(a) and d.eq(b) for a, b in quots)
+                 and not (z3.is_app(q) and q.decl().name() == 'pyfloordiv')]
+        if len(extra) <= 6:
+            for q, d in extra:
+                hyps.append(T.quotient_hint(q, None, d))
+                for q2, d2 in quots + [e for e in extra if not (e[0].eq(q) and e[1].eq(d))]:
+                    h = T.quotient_hint(q, q2, d)
+                    hyps.append(h if d.eq(d2) else z3.Implies(d == d2, h))
         if need_axiom:
             hyps += T.divmod_axiom()
         return hyps
